@@ -298,6 +298,9 @@ func (e *c01env) checkRawKnownID(r *vh.RNG, mi *msgInfo, k int) {
 		s.Payload = mi.Layout.Encode(val, e.cfg.version == 2)
 		s.Checksum = ref.ChecksumOfWire(ref.Serialize(s), mi.Layout.CRCExtra+1+byte(k))
 	}
+	if k == 1 {
+		s.Checksum = 0 // a checksum field that happens to be zero is a checksum like any other
+	}
 	want := ref.Serialize(s)
 	e.rep.Eval(1)
 	e.rep.Distinct(want)
